@@ -29,10 +29,10 @@ Definition C08_alt_statement : Prop :=
                    20 * Z.of_nat (length (g_vertex_keys (fg_g fg))) < INF) ->
     redefine u f d opts w t = Ok (x, r) ->
     (x = inr XFilterOut <->
-     match b_fout bo with Some flt => forallb (fun fld => flt_ok u flt (f_ty fld)) (fn_out f) = false | None => False end) /\
+     match b_fout bo with Some flt => forallb (fun fld => flt_okv u flt (f_name fld) (f_ty fld) (f_sub fld)) (fn_out f) = false | None => False end) /\
     (forall ins, x = inl ins ->
        forall i, In i ins ->
-         match b_fin b with Some flt => flt_ok u flt (rfield_ty i) = true | None => True end /\
+         match b_fin b with Some flt => flt_okv u flt (rfield_name i) (rfield_ty i) EmptyString = true | None => True end /\
          match i with
          | RNamed n ty => mem (KVal n ty EmptyString) (input_vertices b) = false
          | RTyped ty => mem (KOut ty EmptyString) (input_vertices b) = false
@@ -79,7 +79,7 @@ Definition C08_partial_statement : Prop :=
     wf_call u f b = true -> c08_domain u f b = true ->
     redefine u f d opts w t = Ok (x, r) ->
     (x = inr XFilterOut <->
-     match b_fout bo with Some flt => forallb (fun fld => flt_ok u flt (f_ty fld)) (fn_out f) = false | None => False end) /\
+     match b_fout bo with Some flt => forallb (fun fld => flt_okv u flt (f_name fld) (f_ty fld) (f_sub fld)) (fn_out f) = false | None => False end) /\
     (forall ins, x = inl ins ->
        forall i, In i ins ->
          match i with
@@ -108,7 +108,7 @@ Section Core.
   Lemma redefine_core x r :
     redefine u f d opts w t = Ok (x, r) ->
     (x = inr XFilterOut <->
-     match b_fout bo with Some flt => forallb (fun fld => flt_ok u flt (f_ty fld)) (fn_out f) = false | None => False end) /\
+     match b_fout bo with Some flt => forallb (fun fld => flt_okv u flt (f_name fld) (f_ty fld) (f_sub fld)) (fn_out f) = false | None => False end) /\
     (forall ins, x = inl ins ->
        exists fg tr, full_graph u f b true t = Ok (inl fg, tr) /\
          forall i, In i ins ->
@@ -119,7 +119,7 @@ Section Core.
     intros H.
     unfold redefine in H. rewrite HBo in H.
     destruct (match b_fout bo with
-              | Some flt => negb (forallb (fun fld => flt_ok u flt (f_ty fld)) (fn_out f))
+              | Some flt => negb (forallb (fun fld => flt_okv u flt (f_name fld) (f_ty fld) (f_sub fld)) (fn_out f))
               | None => false end) eqn:Chk.
     { (* an output is rejected *)
       inversion H; subst x r; clear H. split.
@@ -128,7 +128,7 @@ Section Core.
         apply negb_true_iff in Chk. exact Chk.
       - intros ins Q. discriminate. }
     assert (NoFlt : ~ match b_fout bo with
-                      | Some flt => forallb (fun fld => flt_ok u flt (f_ty fld)) (fn_out f) = false
+                      | Some flt => forallb (fun fld => flt_okv u flt (f_name fld) (f_ty fld) (f_sub fld)) (fn_out f) = false
                       | None => False end).
     { destruct (b_fout bo) as [flt|]; [|tauto]. apply negb_false_iff in Chk. rewrite Chk. discriminate. }
     (* every other outcome is not XFilterOut *)
@@ -248,9 +248,9 @@ Proof.
   - exfalso. apply Np. apply in_or_app. left. exact I1.
   - destruct k; try discriminate Fk. destruct Ik.
   - destruct k as [|ft|n ty st|ty st|ty st]; try contradiction.
-    + destruct Ik as [<-|[]]. cbn [rfield_ty].
+    + destruct Ik as [<-|[]]. cbn [rfield_ty rfield_name]. cbn [se] in Sk. subst st.
       unfold fin_ok in Fin. destruct (b_fin b); [exact Fin|exact I].
-    + destruct Ik as [<-|[]]. cbn [rfield_ty].
+    + destruct Ik as [<-|[]]. cbn [rfield_ty rfield_name]. cbn [se] in Sk. subst st.
       unfold fin_ok in Fin. destruct (b_fin b); [exact Fin|exact I].
 Qed.
 
